@@ -54,7 +54,7 @@ static void run_split(size_t s1, size_t s2) {
 
 void harness(void) {
 	V_BEGIN();
-	v_pad(padded, IN.msg, LEN, 0);
+	v_pad(padded, sizeof(padded), IN.msg, LEN);
 
 #define X(s1, s2) run_split((s1), (s2));
 	SPLITS
